@@ -32,7 +32,7 @@ def mk(rng, table, mode, px, k):
     f = gen.feat(0, k)                        # independent feature choices per case (see gen.feat)
     cols = [["count"], ["count"], ["count", "x"], ["count", "x", "y"]][f("cols", 4)]
     px = addcols(px, len(cols), rng)
-    forms = ["frame", "iter", "dict", "iter_dict", "frame_shuffled", "list", "iter_unsorted", "iter_dict_unsorted"] + \
+    forms = ["frame", "iter", "dict", "iter_dict", "frame_shuffled", "list", "iter_unsorted", "iter_dict_unsorted", "dask"] + \
         (["array"] if mode == "symm" and cols == ["count"] else ["iter"])
     form = forms[f("form", len(forms))]
     mi = f("meta", len(METAS) + 1)
@@ -120,7 +120,7 @@ def run(tier, seed, only_case=None):
               "filter options, JSON metadata document, assembly, destination root or nested group, read back by path/URI/handle). "
               "Stores: sampled/exhaustive on 3-bin tables, structured + random on six table shapes. non-trivial = >= 1 pixel.")
     r.assumptions = ["assembly names are not JSON literals (the metadata reader JSON-decodes every string attribute)",
-                     "values representable in the column dtype", "dask input not covered",
+                     "values representable in the column dtype",
                      "HDF5 filter options are content-neutral in the specification"]
     if only_case is None:
         r.model_check("MC_Index", "MC_Index.cfg")
